@@ -11,7 +11,9 @@ C12 — the line-oriented files next to `info`:
 `fixed = false`: the code as found; `fixed = true`: with proposed_fixes/C12-F8t.diff (`exename=` /
 `libname=` at the very end of a line, a 4-byte line "TASK"), C12-F8s.diff (`check_symbol_file` on an
 empty value), C12-F13.diff (symbol line ending before the type), C12-F12.diff (no `[stack]` line)
-and C12-S3.diff (`%s` without a width) applied.
+and C12-S3.diff (`%s` without a width) applied (all of them are in /repo by now).
+`nl = true`: with proposed_fixes/C12-F18t.diff, -F18m, -F18s, -F18c applied: a last line without its
+newline is an incomplete record and ends the file (`TextScan.nlGate`); `nl = false`: the code as it is.
 
 Lines longer than the 4096-byte buffers are outside the model (`err "long line"`).  Core-only.
 -/
@@ -97,20 +99,26 @@ def parseLine (fixed : Bool) (l : Bytes) : PR (Option Item) :=
     | .err e => .err e
     | .oob t => .oob t
 
-/-- the `getline` loop; fuel = number of bytes + 1 (every line has at least one byte) -/
-def parseLines (fixed : Bool) : Nat → Bytes → List Item → PR (List Item)
-  | 0, _, acc => .ok acc.reverse
-  | n + 1, s, acc =>
-    match getline s with
-    | none => .ok acc.reverse
-    | some (l, r) =>
-      match parseLine fixed (cstr l) with
-      | .ok none => parseLines fixed n r acc
-      | .ok (some it) => parseLines fixed n r (it :: acc)
-      | .err e => .err e
-      | .oob t => .oob t
+/-- the line source of the `getline` loops; `nl`: with the C12-F18 fixes (see `nlGate`) -/
+def getLineG (nl : Bool) (s : Bytes) : Option (Bytes × Bytes) := nlGate nl (getline s)
 
-def parseTaskTxt (fixed : Bool) (s : Bytes) : PR (List Item) := parseLines fixed (s.length + 1) s []
+/-- the body of the `getline` loop (items newest first) -/
+def taskStep (fixed : Bool) (acc : List Item) (l : Bytes) : PR (List Item × Bool) :=
+  match parseLine fixed (cstr l) with
+  | .ok none => .ok (acc, true)
+  | .ok (some it) => .ok (it :: acc, true)
+  | .err e => .err e
+  | .oob t => .oob t
+
+/-- the `getline` loop; fuel = number of bytes + 1 (every line has at least one byte) -/
+def parseLines (fixed nl : Bool) (n : Nat) (s : Bytes) : PR (List Item) :=
+  match lineLoop (getLineG nl) (taskStep fixed) n s [] with
+  | .ok acc => .ok acc.reverse
+  | .err e => .err e
+  | .oob t => .oob t
+
+/-- `read_task_txt_file`.  `nl`: with proposed_fixes/C12-F18t.diff -/
+def parseTaskTxt (fixed nl : Bool) (s : Bytes) : PR (List Item) := parseLines fixed nl (s.length + 1) s
 
 inductive Open | ok | einval | enodata
   deriving Repr, DecidableEq
@@ -205,22 +213,23 @@ def mapLine (fixed : Bool) (l : Bytes) (m : Maps) : PR Maps :=
   | .err e => .err e
   | .oob t => .oob t
 
-def mapLines (fixed : Bool) : Nat → Bytes → Maps → PR Maps
-  | 0, _, m => .ok m
-  | n + 1, s, m =>
-    match fgets 4096 s with
-    | none => .ok m
-    | some (l, r) =>
-      match mapLine fixed (cstr l) m with
-      | .ok m1 => mapLines fixed n r m1
-      | .err e => .err e
-      | .oob t => .oob t
+/-- the line source of `read_session_map`: `fgets(buf, PATH_MAX, fp)` -/
+def getMapLineG (nl : Bool) (s : Bytes) : Option (Bytes × Bytes) := nlGate nl (fgets 4096 s)
+
+def mapStep (fixed : Bool) (m : Maps) (l : Bytes) : PR (Maps × Bool) :=
+  match mapLine fixed (cstr l) m with
+  | .ok m1 => .ok (m1, true)
+  | .err e => .err e
+  | .oob t => .oob t
+
+def mapLines (fixed nl : Bool) (n : Nat) (s : Bytes) (m : Maps) : PR Maps :=
+  lineLoop (getMapLineG nl) (mapStep fixed) n s m
 
 /-- `read_session_map` on the bytes of the map file.  The code as found leaves
     `kernel_base` at 0 (the session is zero-allocated) when no `[stack]` line is read; the
     writer's side (libmcount/record.c) starts from -1. -/
-def parseMap (fixed : Bool) (s : Bytes) : PR Maps :=
-  mapLines fixed (s.length + 1) s { maps := [], kernelBase := if fixed then 2 ^ 64 - 1 else 0 }
+def parseMap (fixed nl : Bool) (s : Bytes) : PR Maps :=
+  mapLines fixed nl (s.length + 1) s { maps := [], kernelBase := if fixed then 2 ^ 64 - 1 else 0 }
 
 /-- `is_kernel_address` -/
 def isKernel (m : Maps) (addr : Nat) : Bool := addr ≥ m.kernelBase
@@ -245,29 +254,29 @@ structure SymHdr where
   count : Nat := 0            -- the return value of check_symbol_file
   deriving Repr, DecidableEq
 
-def checkLoop (fixed : Bool) : Nat → Bytes → SymHdr → PR SymHdr
-  | 0, _, h => .ok h
-  | n + 1, s, h =>
-    match getline s with
-    | none => .ok h
-    | some (l0, r) =>
-      let l := cstr l0
-      if l.length ≥ 4096 then .err "long line" else
-      if l.head? != some 35 then .ok h else
-      if hasPrefix (b "# path name: ") l then
-        match hdrValue fixed (l.drop 13) with
-        | .ok v => checkLoop fixed n r { h with path := some v, count := h.count + 1 }
-        | .err e => .err e
-        | .oob t => .oob t
-      else if hasPrefix (b "# build-id: ") l then
-        match hdrValue fixed ((l.drop 12).take 40) with
-        | .ok v => checkLoop fixed n r { h with buildId := some v, count := h.count + 1 }
-        | .err e => .err e
-        | .oob t => .oob t
-      else checkLoop fixed n r h
+/-- the body of the loop of `check_symbol_file` (`false`: the `break` at the first non-`#` line;
+    with C12-F18c.diff the newline test comes right behind that test, and both `break`) -/
+def checkStep (fixed : Bool) (h : SymHdr) (l0 : Bytes) : PR (SymHdr × Bool) :=
+  let l := cstr l0
+  if l.length ≥ 4096 then .err "long line" else
+  if l.head? != some 35 then .ok (h, false) else
+  if hasPrefix (b "# path name: ") l then
+    match hdrValue fixed (l.drop 13) with
+    | .ok v => .ok ({ h with path := some v, count := h.count + 1 }, true)
+    | .err e => .err e
+    | .oob t => .oob t
+  else if hasPrefix (b "# build-id: ") l then
+    match hdrValue fixed ((l.drop 12).take 40) with
+    | .ok v => .ok ({ h with buildId := some v, count := h.count + 1 }, true)
+    | .err e => .err e
+    | .oob t => .oob t
+  else .ok (h, true)
 
-/-- `check_symbol_file` -/
-def checkSymFile (fixed : Bool) (s : Bytes) : PR SymHdr := checkLoop fixed (s.length + 1) s {}
+def checkLoop (fixed nl : Bool) (n : Nat) (s : Bytes) (h : SymHdr) : PR SymHdr :=
+  lineLoop (getLineG nl) (checkStep fixed) n s h
+
+/-- `check_symbol_file`.  `nl`: with proposed_fixes/C12-F18c.diff -/
+def checkSymFile (fixed nl : Bool) (s : Bytes) : PR SymHdr := checkLoop fixed nl (s.length + 1) s {}
 
 /-- after the type character: `if (*pos++ != ' ') continue; name = pos;` and the TAB cut -/
 def symTail (addr size : Nat) (ty : UInt8) (p : Bytes) : PR (Option SymLine) :=
@@ -293,19 +302,22 @@ def symLine (fixed : Bool) (l0 : Bytes) : PR (Option SymLine) :=
     else symTail a.1 0 ty p2
   | _ => .ok none
 
-def symLines (fixed : Bool) : Nat → Bytes → List SymLine → PR (List SymLine)
-  | 0, _, acc => .ok acc.reverse
-  | n + 1, s, acc =>
-    match getline s with
-    | none => .ok acc.reverse
-    | some (l0, r) =>
-      let l := cstr l0
-      if l.head? == some 35 then symLines fixed n r acc else
-      match symLine fixed l with
-      | .ok none => symLines fixed n r acc
-      | .ok (some x) => symLines fixed n r (x :: acc)
-      | .err e => .err e
-      | .oob t => .oob t
+/-- the body of the loop of `load_module_symbol_file` (symbols newest first) -/
+def symStep (fixed : Bool) (acc : List SymLine) (l0 : Bytes) : PR (List SymLine × Bool) :=
+  let l := cstr l0
+  if l.head? == some 35 then .ok (acc, true) else
+  match symLine fixed l with
+  | .ok none => .ok (acc, true)
+  | .ok (some x) => .ok (x :: acc, true)
+  | .err e => .err e
+  | .oob t => .oob t
+
+/-- the loop of `load_module_symbol_file`.  `nl`: with proposed_fixes/C12-F18s.diff -/
+def symLines (fixed nl : Bool) (n : Nat) (s : Bytes) : PR (List SymLine) :=
+  match lineLoop (getLineG nl) (symStep fixed) n s [] with
+  | .ok acc => .ok acc.reverse
+  | .err e => .err e
+  | .oob t => .oob t
 
 /-- cmds/replay.c `print_graph_rstack`: `symname[strlen(symname) - 1]` on the name of the symbol
     of an ENTRY record; an empty name (a symbol line cut right after the type) makes that
@@ -320,11 +332,11 @@ structure SymFile where
 
 /-- `load_module_symbol` for a module called `modname` whose `.sym` file has the bytes `s`
     (no build-ids, not a `--with-syms` directory) -/
-def parseSym (fixed : Bool) (modname : Bytes) (s : Bytes) : PR SymFile :=
-  match checkSymFile fixed s with
+def parseSym (fixed nl : Bool) (modname : Bytes) (s : Bytes) : PR SymFile :=
+  match checkSymFile fixed nl s with
   | .ok h =>
     if h.count > 0 && h.path != some modname then .ok ⟨false, []⟩ else
-    match symLines fixed (s.length + 1) s [] with
+    match symLines fixed nl (s.length + 1) s with
     | .ok ls => .ok ⟨true, ls⟩
     | .err e => .err e
     | .oob t => .oob t
